@@ -12,6 +12,8 @@ def register(reg):
   reg.module_globals[slices.H]={'b1':ClsN('Bits',z3.IntVal(1))}
   for c in cksum.contracts(): reg.add(c)
   reg.module_globals.update(cksum.module_globals())
+  import os
+  register_bitstructs(reg,os.environ.get('VERIF_TIER','quick'),int(os.environ.get('VERIF_SEED','0') or 0))
 
 def extra_checks(prop,tier,seed,repo,reg,known):
   """module-level tables: complete concrete execution of the real defining statements."""
@@ -22,3 +24,9 @@ def extra_checks(prop,tier,seed,repo,reg,known):
 
 def extra_checks_c05(prop,tier,seed,repo,reg,known):
   return []
+
+def register_bitstructs(reg,tier='quick',seed=0):
+  from . import bitstruct
+  shapes=bitstruct.core_shapes()
+  if tier!='quick': shapes.update(bitstruct.extra_shapes(seed,60))
+  bitstruct.register_shapes(reg,shapes)
